@@ -79,7 +79,11 @@ def cases(draw, tier):
             ins.append({"kind": "new_component", "fault": draw(st.sampled_from(sorted(SCHEMA_FAULTS))), "n": i,
                         "wrap": draw(st.sampled_from(["bare", "in_object"])), "position": draw(st.sampled_from(["end", "start"]))})
         elif kind == "allof_child":
-            ins.append({"kind": "allof_child", "host": draw(st.sampled_from(obj_names)), "n": i})
+            ins.append({"kind": "allof_child", "host": draw(st.sampled_from(obj_names)), "n": i, "narrow": draw(st.booleans())})
+            if ins[-1]["narrow"]:
+                hs = dict(ir["schemas"])[ins[-1]["host"]]
+                if not any(p_[0] == "zzTags" for p_ in hs["props"]):
+                    hs["props"].append(["zzTags", {"k": "array", "items": {"k": draw(st.sampled_from(["str", "num"]))}}, False])
         else:
             ins.append({"kind": "op", "host": draw(st.integers(0, len(ir["ops"]) - 1)), "fault": draw(st.sampled_from(OP_FAULTS)), "n": i})
     # a bad path-item-level parameter that one operation overrides: only the *sibling* operation that inherits it is the host
@@ -182,6 +186,17 @@ def apply(doc, ir, ins) -> tuple[dict, list]:
             name = f"ZzBadChild{x['n']}"
             comps = docs.comp_map(ir)
             props = docs._all_props(comps.get(x["host"], {}), comps)
+            narrowable = [(pn, ps) for pn, ps, _ in props if ps.get("k") == "array" and not ps.get("nullable") and ps["items"].get("k") in ("str", "num")
+                          and not ps["items"].get("nullable")]
+            if x.get("narrow") and narrowable:
+                # the child narrows an inherited array property (a merge the generator supports) and is broken elsewhere: it goes away,
+                # its parent must not change
+                pname, ps = narrowable[0]
+                items = {"type": "string", "format": "date"} if ps["items"]["k"] == "str" else {"type": "integer"}
+                schemas[name] = {"allOf": [{"$ref": "#/components/schemas/" + x["host"]},
+                                           {"type": "object", "properties": {pname: {"type": "array", "items": items}, "zzown": {"type": "array"}}}]}
+                hosts.append(("schema", name))
+                continue
             if props:
                 pname, ps, _ = props[0]
                 clash = {"type": "object"} if ps.get("k") not in ("object", "ref", "any", "union") else {"type": "boolean"}
@@ -386,6 +401,11 @@ def run(case, ctx):
             if len(res.errors) < n_pieces:
                 ctx.violation("bad_piece.each_diagnosed", {"what": case["ins"][0]["what"]},
                               f"{n_pieces} omitted pieces, {len(res.errors)} diagnostics: {res.diag_text()[:300]!r}")
+        narrowing_parents = {("schema", x_["host"]) for x_ in case["ins"] if x_["kind"] == "allof_child" and x_.get("narrow")}
+        if narrowing_parents:
+            # ... and whatever is built from such a parent (its other children, operations that use it)
+            np_s, np_o = affected(ir, sorted(narrowing_parents))
+            narrowing_parents |= {("schema", n_) for n_ in np_s} | {("op", i_) for i_ in np_o}
         snap1 = sut.snapshot(res.out)
         diag = res.diag_text()
         missing_owners = set()
@@ -406,7 +426,9 @@ def run(case, ctx):
                 if not is_aff:
                     ctx.violation("unrelated.still_generated", {**site0, "owner": own[0]}, f"{rel} vanished; owner {own}")
             elif snap1[rel] != data and not is_aff:
-                ctx.violation("unrelated.identical_bytes", {**site0, "owner": own[0]}, f"{rel} changed; owner {own}")
+                ctx.violation("unrelated.identical_bytes", {**site0, "owner": own[0],
+                                                            **({"parent_of_broken_narrowing_child": True} if own in narrowing_parents else {})},
+                              f"{rel} changed; owner {own}")
         for own in missing_owners:
             ident = own[1] if own[0] == "schema" else f"{ir['ops'][own[1]]['method'].upper()} {ir['ops'][own[1]]['path']}"
             if not sut.names_item(diag, str(ident)):
@@ -418,6 +440,8 @@ def run(case, ctx):
         if strip(a0) != strip(a1) and a1:
             ctx.violation("unrelated.index_only_lists_names", site0, a1[:200])
         # nothing that remains refers to anything removed
+        if narrowing_parents:
+            site0 = {**site0, "parent_of_broken_narrowing_child": True}
         files = pyast.py_files(res.out)
         trees = {}
         compiled = True
